@@ -505,7 +505,30 @@ def oracle(jobs, field):
             out.setdefault("refparam:%s" % ak, ("`%s` is %s although areEquivalent of the two types is %s whichever side carries the wrapper"
                                                 % (jb["line"][2:], "accepted" if acc else "rejected", bits[0]),
                                                 {"op": jb["line"], "answer": jb[field], "jobs": [jobrec(jb)]}))
+    # the same question against the types AS DECLARED in the document text (written down here, not read from the library): an integer
+    # variable is accepted for an integer reference parameter exactly when the two declared ranges coincide -- whatever else the
+    # declaration carries (`meta`, a typedef name, a template parameter)
+    for jb in jobs:
+        if jb["cls"] != "call" or field not in jb or jb["a"] not in DECLARED_INT or jb["param"] not in PARAM_INT:
+            continue
+        m = re.match(r"^(ok|rej)", jb[field])
+        if not m:
+            continue
+        acc, want = m.group(1) == "ok", DECLARED_INT[jb["a"]] == PARAM_INT[jb["param"]]
+        if jb["f"] == "g_int":
+            want = True      # `const int &p`: a constant integer without a range takes any integer (the library's reading; same for `const int p`)
+        if acc != want:
+            out.setdefault("refparam-declared:%s/%s" % (jb["param"], jb["a"]),
+                           ("`%s` is %s although the argument is declared %s and the parameter %s" % (
+                               jb["line"][2:], "accepted" if acc else "rejected", DECLARED_INT[jb["a"]], PARAM_INT[jb["param"]]),
+                            {"op": jb["line"], "answer": jb[field], "jobs": [jobrec(jb)]}))
     return out
+
+
+FULL = "int[-32768,32767]"
+DECLARED_INT = {"i": FULL, "j": FULL, "mi": FULL, "pri": FULL, "li": FULL, "bi": "int[0,3]", "bi2": "int[0,3]", "ti": "int[0,3]",
+                "prbi": "int[0,3]", "bj": "int[1,5]"}
+PARAM_INT = {"int": FULL, "bi": "int[0,3]", "ti": "int[0,3]", "bj": "int[1,5]"}
 
 
 # which oracle findings are the failing inputs of which broken lemma / theorem (by name prefix)
